@@ -354,3 +354,96 @@ Example C13_ex_disconnect_step :
   ex_view s' = (CIdle, true, Some BMandatory, None) /\
   s_last_bcast (fst (ostep (ex_cfg false) s' (ex_confirm false 2) [])) = Some BMandatory.
 Proof. exact ex_disconnect_step. Qed.
+
+(* ---------------------------------------------------------------------------------------------------
+   The COMPOSED outstation model (Outstation/Full.v): parser digest (App/Grammar.v), session
+   (Outstation/Session.v) and database (Outstation/Database.v) in one loop - the engine `ofull`, compared
+   line by line with the implementation's whole trace by the second pass of every session check.
+   The bits of the responses are the database's truth, for whole steps of that model. *)
+From Dnp3V Require Import Outstation.Database Outstation.SessionEvinfo Outstation.Full Outstation.FullProofs.
+
+(* session half: one step consumes its environment's answers in order, and every response it builds and
+   transmits carries exactly the class bits / overflow bit of the AEvinfo answer consumed for it *)
+Theorem C13_step_tracks_answers : forall cfg s ev ans s' o,
+  small_pd s -> Forall sm_ans ans -> sm_event ev ->
+  ostep cfg s ev ans = (s', o) ->
+  tracked ans o (s_answers s') /\ small_pd s'.
+Proof. exact ostep_tracked. Qed.
+Print Assumptions C13_step_tracks_answers.
+
+(* replay half: the answer given to a DbEvinfo call is that of the database state reached by replaying
+   the database calls that precede it in the session's output *)
+Theorem C13_evinfo_answer_is_database_state : forall F rest d c n log d' c' log' c1 c2 c3 v k,
+  walk F d c n log rest = WAsk d' c' log' (AEvinfo c1 c2 c3 v) k ->
+  exists pre post cpre logpre,
+    rest = pre ++ ODb DbEvinfo :: OMissingAnswer :: post /\
+    walk F d c n log pre = WDone d' cpre logpre /\
+    (c1, c2, c3) = db_unwritten_classes d' /\ v = db_is_overflown d' /\
+    k = S (n + length pre) /\ log' = FAns (AEvinfo c1 c2 c3 v) :: FObs (ODb DbEvinfo) :: logpre.
+Proof. exact walk_evinfo. Qed.
+Print Assumptions C13_evinfo_answer_is_database_state.
+
+(* a step without FReplayError is a run of the session model on the computed answers, none missing *)
+Theorem C13_composed_event_complete : forall F st d ev,
+  let ro := fevent_out F st d ev in
+  ~ In FReplayError (ro_log ro) ->
+  ostep (f_o F) (fs_s st) ev (ro_answers ro) = (ro_s ro, ro_out ro) /\
+  Forall (fun o => o <> OMissingAnswer) (ro_out ro).
+Proof. exact fevent_complete. Qed.
+Print Assumptions C13_composed_event_complete.
+
+(* composition: every response built and transmitted during one script operation of the composed model
+   carries the class bits and the overflow bit of the database state at the moment of its DbEvinfo call *)
+Theorem C13_composed_step : forall F st op,
+  small_pd (fs_s st) ->
+  let ro := fevent_out F st (fst (fop_event st op)) (snd (fop_event st op)) in
+  ~ In FReplayError (snd (fstep F st op)) -> iin_truthful (ro_snaps ro) (ro_out ro).
+Proof. exact fstep_c13. Qed.
+Print Assumptions C13_composed_step.
+
+Theorem C13_composed_start : forall F sel op appiin,
+  let ro := fstart_out F sel op appiin in
+  ~ In FReplayError (ro_log ro) -> iin_truthful (ro_snaps ro) (ro_out ro).
+Proof. exact fstart_c13. Qed.
+Print Assumptions C13_composed_start.
+
+(* the hypothesis of C13_composed_step holds along every history of the composed model *)
+Theorem C13_composed_invariant : forall F sel op appiin,
+  small_pd (fs_s (fst (fstart F sel op appiin))) /\
+  forall st o, small_pd (fs_s st) -> small_pd (fs_s (fst (fstep F st o))).
+Proof. intros F sel op appiin. split; [apply fstart_small|intros st o; apply fstep_small]. Qed.
+Print Assumptions C13_composed_invariant.
+
+(* the hypotheses are satisfiable: a concrete history (null unsolicited response at start-up, one class 1
+   point, its CONFIRM, one event, a class 1 poll, its CONFIRM) runs through the composed model without
+   FReplayError; two responses are built and transmitted; the poll is answered with the event, and as the
+   event is then marked written the class 1 bit of that response is 0, exactly what the database says *)
+Definition ex_full_cfg : fcfg :=
+  {| f_o := {| o_master := 1; o_any_master := false; o_unsol := true; o_broadcast := true;
+               o_confirm_ms := 5000; o_select_ms := 5000; o_retries := None; o_retry_delay_ms := 5000;
+               o_max_controls := None; o_sol_tx := 2048; o_delay_ms := 0; o_cold := None; o_warm := None;
+               o_wtime := 0; o_freeze := 1 |};
+     f_unsol_tx := 2048; f_evbuf := 5 |}.
+
+Definition ex_full_ops : list fop :=
+  [FAdd TBinary 0 (Some Class1);
+   FRx 1 None [208; 0];                                   (* CONFIRM of the null unsolicited response *)
+   FUpdate TBinary 0 (mkMeas 1 1 (Some (true, 1000)) []);
+   FRx 1 None [193; 1; 60; 2; 6];                         (* READ class 1 *)
+   FRx 1 None [193; 0]].                                  (* CONFIRM *)
+
+Definition is_replay_error (x : fobs) : bool := match x with FReplayError => true | _ => false end.
+Definition is_fresh_tx (x : fobs) : bool := match x with FAns (AEvinfo _ _ _ _) => true | _ => false end.
+
+Example C13_ex_composed_run :
+  let logs := frun ex_full_cfg 0 0 0 ex_full_ops in
+  existsb is_replay_error (concat logs) = false /\
+  length (filter is_fresh_tx (concat logs)) = 2%nat /\
+  nth 4 logs [] =
+    [FDigest (DOk 193 1 RvOk (ObjOk [WCls 1] [true])) 0;
+     FObs (OInfo (IIdleRequest 1 1)); FObs (ODb DbSelect); FAns (AIin2 0);
+     FObs (ODb DbWrite); FAns (AWrite true true [2; 1; 40; 1; 0; 0; 0; 129]);
+     FObs (ODb DbEvinfo); FAns (AEvinfo false false false false);
+     FObs (OTx 1 [225; 129; 128; 0; 2; 1; 40; 1; 0; 0; 0; 129]); FTxParse 0;
+     FObs (OInfo (IEnterSolWait 1))].
+Proof. vm_compute. repeat split. Qed.
